@@ -46,7 +46,7 @@ impl Monitor for Mon {
     fn on_step(&mut self, w: &World, st: &Step, rep: Option<(&mut Report, &[Event])>) {
         let finals_before = std::mem::replace(&mut self.finals_before, w.reqs.iter().map(|r| r.finals.len()).collect());
         let Some((rep, hist)) = rep else { return };
-        let replay = || json!({"kind": "history", "config": w.cfg.show(), "events": explore::show_history(hist), "observed": super::world::show_events(&st.obs.events)});
+        let replay = || explore::history_replay(w, hist, st.obs);
         if let CallRes::Panic(p) = &st.obs.res {
             rep.violate(format!("client/client-panics/{}", crate::util::panic_site(p)), p.clone(), replay());
             return;
@@ -129,6 +129,10 @@ impl Monitor for Mon {
         }
         v
     }
+}
+
+pub fn proto() -> Box<dyn Monitor> {
+    Box::new(Mon { finals_before: vec![] })
 }
 
 pub fn run(ctx: &RunCtx, rep: &mut Report) {
